@@ -300,9 +300,11 @@ Written(d, c, ps) == [p \in (DOMAIN d) \cup ps |-> IF p \in ps THEN c[p] ELSE d[
 WithTable(a, t) == [x \in (DOMAIN a) \cup {t} |-> IF x = t THEN <<>> ELSE a[x]]
 
 \* CREATE TABLE: change cached pages, then flush, then acknowledge
-CreateStmt(t) ==
+\* bad = TRUE: a column declaration the catalog cannot hold (VARCHAR length beyond 32 bits); the repaired code
+\* checks every schema row before it touches a page, so the statement fails and nothing changes
+CreateStmt(t, bad) ==
   /\ pc.k = "idle"
-  /\ LET r == CreateTableOn(CurS, disk, t) IN
+  /\ LET r == IF bad THEN [S |-> CurS, err |-> "badcolumn"] ELSE CreateTableOn(CurS, disk, t) IN
      IF r.err = "ok"
      THEN IF FlushSteps
           THEN /\ Commit(r.S)
